@@ -17,7 +17,7 @@
         c05_rows_independent_fixed are then the statements about the tree.
      3. known_findings.d/C05.jsonl: status "finding" -> "fixed".                                              *)
 From Coq Require Import String Ascii.
-From Coq Require Import List Bool ZArith NArith Arith.
+From Coq Require Import List Bool ZArith NArith Arith Lia.
 From Tally Require Import Gen.C05Amount C05.Model C05.Amount C05.Proofs C05.AmountProofs.
 Import ListNotations.
 Open Scope N_scope.
@@ -165,8 +165,7 @@ Theorem c05_amount_value_exact :
     parse_amount (conv_dec c) (render c w) = Some (written_value w).
 Proof.
   intros c w Hw Hnz Hlt Hfr. rewrite (amount_value c w Hw). f_equal. unfold written_value.
-  apply to_double_id; [exact Hnz|exact Hlt|]. split; [|apply Z.opp_nonpos_nonneg; apply Nat2Z.is_nonneg].
-  apply Z.opp_le_mono. rewrite Z.opp_involutive. change 300%Z with (Z.of_nat 300). now apply Nat2Z.inj_le.
+  apply to_double_id; [exact Hnz|exact Hlt|]. lia.
 Qed.
 Print Assumptions c05_amount_value_exact.
 
